@@ -587,3 +587,240 @@ def c15_replay(prop, replay, scratch):
 
 
 PROPS["C15"] = {"runner": c15_runner, "replay": c15_replay, "level": "proof"}
+
+
+# ---- C02: crash images -----------------------------------------------------------------------------
+def run_under_shim(scratch, lines, tag, extra_env=None):
+    import crashcheck
+    crashcheck.ensure_shim()
+    cdir = os.path.join(scratch.dbdir, "crash-" + tag)
+    os.makedirs(cdir, exist_ok=True)
+    logp = os.path.join(cdir, "io.log")
+    env = {"LD_PRELOAD": crashcheck.SHIM, "JSHIM_LOG": logp, "JSHIM_PATH": "jverif-", "JH_CRASH_DIR": cdir}
+    if extra_env:
+        env.update(extra_env)
+    res, stats = vlib.run_hist(scratch, lines, name=tag, harness_env=env)
+    trace = scratch.path("%s-%d.trace" % (tag, scratch.n))
+    return res, trace, logp, cdir
+
+
+def dumps_by_commit(trace):
+    """commit sequence number -> (dump before, dump after), read off the (Lean-verified) transcript"""
+    out = {}
+    seq = 0
+    last = "{n=-;}"
+    pending = []
+    for l in open(trace, errors="replace"):
+        lhs, sep, got = l.rstrip("\n").partition(" => ")
+        f = lhs.split(" ")
+        if f[0] == "commit":
+            seq += 1
+            if got == "ok":
+                pending.append(seq)
+                out[seq] = [last, None]
+            else:
+                out[seq] = [last, last]
+        elif f[0] == "dump" and sep:
+            for s_ in pending:
+                out[s_][1] = got
+            if pending:
+                pending = []
+            last = got
+    return out
+
+
+def c02_runner(prop, tier, seed, scratch, spec):
+    import random
+    import crashcheck
+    import imgcheck
+    q = tier == "quick"
+    r = random.Random(seed)
+    steps = crashcheck.gen_steps_list()
+    pagesize = 1024
+    violations, samples = [], []
+    n_img = n_ok = n_commits = 0
+    kinds = collections.Counter()
+    items, expect = [], {}
+    imgdir = os.path.join(scratch.dbdir, "cimg")
+    os.makedirs(imgdir, exist_ok=True)
+    for idx in range(3 if q else 40):
+        h = crashcheck.crash_history(seed, idx, q)
+        res, trace, logp, cdir = run_under_shim(scratch, h, "c02h%d" % idx)
+        bad = vlib.failing(res)
+        if bad:
+            p = vlib.write_replay(prop, "hist%d" % idx, h, {"detail": list(bad.values())[0]["detail"]})
+            violations.append((p, "history failed under the shim: " + list(bad.values())[0]["detail"][:200], ""))
+            continue
+        commits = crashcheck.parse_log(logp)
+        dumps = dumps_by_commit(trace)
+        for c in commits:
+            if c["outcome"] != "ok" or not c["events"]:
+                continue
+            n_commits += 1
+            why = crashcheck.check_shape(c, steps, pagesize) if steps else None
+            if why:
+                p = vlib.write_replay(prop, "shape-h%d-c%d" % (idx, c["seq"]), h, {"broken": "observed I/O of commit %d does not match the regenerated step order %s" % (c["seq"], steps), "detail": why, "observed": [(e[0], e[1] if len(e) > 1 else "", len(e[2]) if len(e) > 2 else "") for e in c["events"]][:40]})
+                violations.append((p, "I/O trace of commit %d differs from Gen.commitSteps: %s" % (c["seq"], why), " no-failing-input-found"))
+                continue
+            pre = open(os.path.join(cdir, "pre-%d.img" % c["seq"]), "rb").read()
+            dpre, dpost = dumps.get(c["seq"], [None, None])
+            if dpost is None:
+                continue
+            for name, kind, after, img in crashcheck.crash_images(c, pre, pagesize, r, q):
+                iid = "h%d-c%d-%s" % (idx, c["seq"], name)
+                pth = os.path.join(imgdir, iid)
+                open(pth, "wb").write(img)
+                items.append((iid, pth, pagesize))
+                expect[iid] = (dpre, dpost, after, kind, idx, c["seq"])
+                kinds[kind + ("-after-return" if after else "")] += 1
+        shutil.rmtree(cdir, ignore_errors=True)
+    impl, model = imgcheck.parallel_probe(scratch, items)
+    seen = set()
+    for iid, pth, _ in items:
+        n_img += 1
+        dpre, dpost, after, kind, idx, seq = expect[iid]
+        io = impl.get(iid, "missing")
+        mo = model.get(iid, ("missing", ""))[0]
+        idump, ichk = imgcheck.dump_of(io)
+        problem = None
+        if idump is None:
+            problem = "reopening the crash image did not succeed: %s" % io[:100]
+        elif ichk != "ok":
+            problem = "the crash image is not structurally sound: %s" % ichk[:80]
+        elif idump not in (dpre, dpost):
+            problem = "shows neither the state before nor the state after the interrupted commit"
+        elif after and idump != dpost:
+            problem = "commit had returned success but its effects did not survive"
+        elif io != mo:
+            problem = "the Lean model (decoder + checker) disagrees: %s" % mo[:100]
+        if problem is None:
+            n_ok += 1
+            continue
+        sg = (problem[:30], kind)
+        if sg in seen or len(violations) >= 4:
+            continue
+        seen.add(sg)
+        keep = os.path.join(vlib.WORK, "replays", "C02-%s.img" % iid)
+        os.makedirs(os.path.dirname(keep), exist_ok=True)
+        shutil.copy(pth, keep)
+        violations.append((keep, "%s (%s, history %d commit %d): %s" % (iid, kind, idx, seq, problem), ""))
+    if items:
+        samples = [{"image": i, "kind": expect[i][3], "after_return": expect[i][2], "impl": impl.get(i, "")[:60]} for i, _, _ in items[:2] + items[-2:]]
+    cov = {
+        "evaluations": n_img,
+        "distinct_nontrivial": n_img,
+        "rule": "for every successful commit of the generated histories (small/large transactions, bucket deletes, growth, page reuse), from the libc calls logged by the LD_PRELOAD shim: every prefix of the writes, the last possibly short (kill); at every point, all single omissions / sampled subsets of the writes since the last completed sync, sector tears, header word tears (power loss); each image opened by the real code and by the Lean model. The observed I/O sequence of each commit is first checked against the regenerated step order.",
+        "samples": samples,
+        "traces_validated_against_impl": n_ok,
+        "commits": n_commits,
+        "image_kinds": dict(kinds),
+        "commit_step_order": steps,
+    }
+    return {"violations": violations, "coverage": cov, "explored": n_img, "known": []}
+
+
+PROPS["C02"] = {"runner": c02_runner, "replay": c12_replay, "level": "proof",
+                "assumptions": ["A-disk: sector (512 B) atomicity, no reordering across a completed fsync, page cache coherent with mmap", "NoTornCollision: no mix of old and new header words verifies its checksum (evaluated on every synthesised tear)"]}
+
+
+# ---- C11: injected I/O faults ---------------------------------------------------------------------------
+def c11_continuation(t0, h0):
+    """state-agnostic continuation after a commit that reported an I/O error: resolve which state is
+    visible, check the file, commit three more transactions, reopen"""
+    hx, vtok = jgen.hx, jgen.vtok
+    L = []
+    t, h = t0, h0
+    L += ["begin %d r" % t, "dump %d" % t, "drop %d" % t, "file", "dbcheck"]
+    t += 1
+    for k in range(3):
+        L += ["begin %d w" % t, "gocb %d %d 0 %s" % (t, h, hx(b"after-fault"))]
+        for j in range(6):
+            L.append("put %d %d %s %s" % (t, h, hx(b"af-%d-%d" % (k, j)), vtok(bytes([65 + j]) * (100 + 250 * j))))
+        if k == 1:
+            L.append("del %d %d %s" % (t, h, hx(b"af-0-2")))
+        L += ["commit %d" % t, "file"]
+        t += 1
+        h += 1
+        L += ["begin %d r" % t, "dump %d" % t, "drop %d" % t, "dbcheck"]
+        t += 1
+    L += ["reopen", "begin %d r" % t, "dump %d" % t, "drop %d" % t, "file", "dbcheck", "close"]
+    return L
+
+
+def c11_runner(prop, tier, seed, scratch, spec):
+    import random
+    import crashcheck
+    q = tier == "quick"
+    r = random.Random(seed)
+    violations = []
+    n_cases = n_ok = 0
+    fault_kinds = collections.Counter()
+    variants = []
+    for idx in range(2 if q else 10):
+        # base history; the last committed write transaction is the one that will be faulted
+        prof = {"families": ["deep", "tiny"], "txs": 3, "ops": 30, "p_drop": 0.0, "p_reopen": 0.0, "p_dbcheck": 0.0, "p_bucket_ops": 0.2,
+                "file": False, "numpages": 16 if idx % 2 else 64, "big_values": idx % 2 == 1}
+        g = jgen.HistGen(seed * 4409 + idx, prof)
+        base = g.history("c11-base%d" % idx)
+        base = [l for l in base if l != "close"]
+        res, trace, logp, cdir = run_under_shim(scratch, base + ["close"], "c11b%d" % idx)
+        bad = vlib.failing(res)
+        if bad:
+            p = vlib.write_replay(prop, "base%d" % idx, base, {"detail": list(bad.values())[0]["detail"]})
+            violations.append((p, "base history failed: " + list(bad.values())[0]["detail"][:200], ""))
+            continue
+        commits = [c for c in crashcheck.parse_log(logp) if c["outcome"] == "ok" and c["events"]]
+        shutil.rmtree(cdir, ignore_errors=True)
+        if not commits:
+            continue
+        # position of each `commit T` line in the base history, aligned with the logged commits
+        commit_lines = [i for i, l in enumerate(base) if l.startswith("commit ")]
+        ok_commit_lines = commit_lines[-len(commits):] if len(commit_lines) >= len(commits) else commit_lines
+        targets = list(zip(ok_commit_lines, commits))
+        if q:
+            targets = targets[-2:]
+        for li, c in targets:
+            nw = sum(1 for e in c["events"] if e[0] == "W")
+            ns = sum(1 for e in c["events"] if e[0] == "S")
+            faults = [("write", n, e_, sh_) for n in range(1, nw + 1) for e_, sh_ in ((5, None), (28, 512 if n % 2 else 0))]
+            faults += [("fsync", n, 5, None) for n in range(1, ns + 1)]
+            if q and len(faults) > 14:
+                keep = [f_ for f_ in faults if f_[0] == "fsync" or f_[1] in (1, nw, nw - 1)]
+                faults = keep + r.sample([f_ for f_ in faults if f_ not in keep], max(0, 14 - len(keep)))
+            for kind, n, errno_, short in faults:
+                fl = "fault %s %d %d" % (kind, n, errno_) + (" %d" % short if short is not None else "")
+                hid = "c11-%d-l%d-%s%d-e%d%s" % (idx, li, kind, n, errno_, "-s%d" % short if short is not None else "")
+                lines = ["hist " + hid] + base[1:li] + [fl, base[li]] + c11_continuation(5000, 5000)
+                variants.append(lines)
+                fault_kinds["%s-%s" % (kind, "short" if short is not None else "fail")] += 1
+        # file extension failure: a commit that must grow the file, under a file-size limit
+        hx, vtok = jgen.hx, jgen.vtok
+        lim = ["hist c11-limit-%d" % idx, "cfg pagesize=1024 numpages=8 strict=0 populate=0", "open",
+               "begin 1 w", "mkb 1 1 0 %s" % hx(b"base"), "put 1 1 %s %s" % (hx(b"k"), hx(b"v")), "commit 1",
+               "begin 2 w", "getb 2 2 0 %s" % hx(b"base")]
+        lim += ["put 2 2 %s %s" % (hx(b"big%d" % j), vtok(bytes([66 + j]) * 3000)) for j in range(4 + idx)]
+        lim += ["limit %d" % (8 * 1024), "commit 2", "limit inf"] + c11_continuation(5000, 5000)
+        variants.append(lim)
+        fault_kinds["extension-limit"] += 1
+    n_cases = len(variants)
+    crashcheck.ensure_shim()
+    env = {"LD_PRELOAD": crashcheck.SHIM, "JSHIM_PATH": "jverif-", "JSHIM_LOG": "/dev/null"}
+    results, stats, by_id = histcheck.run_suites(scratch, [("faults", variants)], harness_env=env)
+    fails = vlib.failing(results)
+    n_ok = len(results) - len(fails)
+    for pth, desc in (histcheck.shrink_and_report(prop, scratch, by_id, fails, harness_env=env) if fails else []):
+        violations.append((pth, desc, ""))
+    outcome_stats = {k: v for k, v in stats.items() if k.startswith("commit/")}
+    cov = {
+        "evaluations": n_cases,
+        "distinct_nontrivial": n_cases,
+        "rule": "for the commits of generated base histories, every write call index x {EIO, ENOSPC after a short write} and every fsync index (quick: first/last/penultimate + sample), injected through the LD_PRELOAD shim; plus file extension refused through RLIMIT_FSIZE; each followed by: read the visible state (must be exactly before or after), Lean file check, DB::check, three more committed transactions, reopen",
+        "samples": [v[-40:-30] for v in variants[:1]] + [[l for l in v if l.startswith("fault") or l.startswith("limit")] for v in variants[:6]],
+        "traces_validated_against_impl": n_ok,
+        "fault_kinds": dict(fault_kinds),
+        "commit_outcomes": outcome_stats,
+    }
+    return {"violations": violations, "coverage": cov, "explored": n_cases, "known": []}
+
+
+PROPS["C11"] = {"runner": c11_runner, "level": "proof", "assumptions": ["the kernel's own behaviour after a failed fsync (page cache contents) is an assumption: pages written before the failure stay visible through the map"]}
